@@ -74,7 +74,8 @@ def strip_comments(text: str) -> str:
         elif text.startswith("/*", i):
             j = text.find("*/", i + 2)
             j = n if j < 0 else j + 2
-            result.append("\n" * text.count("\n", i, j))
+            # A comment separates tokens like white space does ('1/* x */0d' is not '10d')
+            result.append(" " + "\n" * text.count("\n", i, j))
             i = j
         else:
             result.append(ch)
